@@ -30,8 +30,12 @@ sent with ACK subtype, STALL dispatched to NRDY, live (unlatched) address / endp
 endpoint latch, sequence not latched in the ACK request cycle, address forced to 0 in NRDY, done asserted without
 transfer, header not held until ready, ready asserted while busy.
 
-Not judged: direction, number of packets, route string and every reserved bit (the statement does not name them and the
-interface has no input for them); retry and sequence for NRDY / ERDY / STALL (those packets have no such field); the
+Bits the statement does not name (route string, direction, number of packets, reserved bits, DW2, and for NRDY / ERDY /
+STALL the positions an ACK uses for retry and sequence - USB 3.2 has no such field in those packets): their *value* is not
+judged (the statement does not decide it and the interface has no input for it), but within a case they must be identical in
+all packets of one kind, i.e. they must not depend on the request's field values (`unnamed_bits_depend_on_request_fields`).
+
+Not judged: the constant values of direction, number of packets, route string and reserved bits; the
 subtype when two kinds are requested in the same cycle; endpoint numbers above 15 (the interface field is 7 bits wide, the
 packet field 4 bits; such values are generated rarely and the endpoint comparison is skipped for them).
 """
@@ -48,8 +52,10 @@ KINDS = ["ack", "stall", "nrdy", "erdy"]
 REQUIRED_BINS = ["request_ack", "request_stall", "request_nrdy", "request_erdy", "fields_changed_cycle_after_request",
                  "fields_set_in_request_cycle", "request_on_first_ready_cycle", "strobe_while_busy", "strobe_held",
                  "header_waited_for_ready", "header_taken_immediately", "fields_changed_while_header_waits",
-                 "ack_retry_1", "ack_retry_0", "ack_sequence_ge_16", "address_ge_64", "single_bit_field_change"]
-REQUIRED_EVENTS = ["requests_accepted", "headers_transferred", "headers_compared", "done_pulses", "ready_cycles", "busy_cycles"]
+                 "ack_retry_1", "ack_retry_0", "ack_sequence_ge_16", "address_ge_64", "single_bit_field_change",
+                 "unnamed_bits_compared_ack", "unnamed_bits_compared_stall", "unnamed_bits_compared_nrdy", "unnamed_bits_compared_erdy"]
+REQUIRED_EVENTS = ["requests_accepted", "headers_transferred", "headers_compared", "done_pulses", "ready_cycles", "busy_cycles",
+                   "unnamed_bits_compared"]
 ASSUMPTIONS = ["two request strobes in one cycle are contradictory: exactly one packet is still demanded, its subtype may be either",
                "endpoint numbers > 15 do not fit the 4-bit packet field: endpoint not compared for them",
                "header must become valid within 8 cycles of the request; done within 0..3 cycles of the transfer",
@@ -225,6 +231,7 @@ def run_case(rng, tier, res):
 
     # ---------------------------------------------------------------- monitor + oracle
     pending = []          # requests not yet answered
+    unnamed = {}          # kind -> (bits outside the named fields of the first packet of that kind, its context)
     want_done = []        # transfer cycles waiting for their done pulse
     st = {"prev_wait": None, "valid_since": None, "prev_ready": 1}
 
@@ -296,6 +303,22 @@ def run_case(rng, tier, res):
                         report("retry_flag_not_from_request_cycle", ctx)
                     if got["sequence"] != f["sequence"]:
                         report("sequence_number_not_from_request_cycle", ctx)
+                # bits the statement does not name (route string, direction, number of packets, reserved bits, DW2; for
+                # NRDY / ERDY / STALL also the bit positions an ACK uses for retry and sequence): the interface has no input for
+                # them, so for one kind of request they cannot depend on anything - they must be the same in every packet.
+                if len(rq["kinds"]) == 1 and got["subtype"] == wanted[0]:
+                    kind = rq["kinds"][0]
+                    m1 = 0xFFFFFFFF & ~(0xF | (0xF << 8) | (((1 << 6) | (0x1F << 21)) if kind == "ack" else 0))
+                    rest = (dw0 & 0x01FFFFE0, dw1 & m1, dw2)
+                    if kind not in unnamed:
+                        unnamed[kind] = (rest, ctx)
+                    else:
+                        res.event("unnamed_bits_compared")
+                        res.bin("unnamed_bits_compared_" + kind)
+                        if unnamed[kind][0] != rest:
+                            report("unnamed_bits_depend_on_request_fields",
+                                   "%s packets differ outside the requested fields: route/dw1-rest/dw2 %08x %08x %08x here, %08x %08x %08x before (%s); now: %s"
+                                   % ((kind.upper(),) + rest + unnamed[kind][0] + (unnamed[kind][1], ctx)))
         if valid and not qready:
             st["prev_wait"] = (dw0, dw1, dw2)
         else:
